@@ -8,7 +8,7 @@ CLAIMED = {
  "C01": ("exploration",
    "runtime reference-model monitor (independent draft-4 evaluator over exact rationals, run in lock-step with AgainstSchema and NewSchemaValidator on generated pairs)",
    "Every generated (schema, instance) pair is executed through both entry points of the real library and the verdict is compared online with an independent draft-4 model; deviations are attributed to a recorded finding only when the model with exactly that deviation switched on reproduces the implementation on that very case. Held on N sampled pairs, not a proof.",
-   "Trusted: the reference model (self-checked against the labelled JSON-Schema suite at every start), Go regexp, strfmt.Default, math/big. Sampled input space.", "DESIGN.md §4 C01"),
+   "Trusted: the reference model (self-checked against the labelled JSON-Schema suite at every start), Go regexp, the format registry handed to both sides (strfmt.Default or a caller-supplied one which disagrees with it), math/big. Sampled input space.", "DESIGN.md §4 C01"),
  "C06": ("exploration",
    "runtime crash/hang monitor (child processes, recover, log-before-run marker, bounded-progress watchdog) over degenerate schemas x hostile values x option combinations",
    "Degenerate and hostile inputs are executed through the real entry points in child processes; any panic other than the documented invalid-schema panic (cross-checked by an independent reference resolver) or a process death is a violation; non-termination is decided as bounded progress and confirmed by a solo re-run.",
@@ -32,11 +32,11 @@ CLAIMED = {
  "C17": ("exploration",
    "runtime structural oracle on results + single-fault location differential",
    "The error value / Result of real validations is inspected online for well-formedness (nil or 422 composite, message sets equal, no duplicates, names extend the root); separately one fault is planted at a known location and a field-level error with exactly that name is demanded.",
-   "Location accuracy only for properties/patternProperties/additionalProperties/tuple items with dot-free names, as the property states; sampled.", "DESIGN.md §4 C17"),
+   "Location accuracy only for properties/patternProperties/additionalProperties/tuple items and the first element beyond a tuple, with dot-free names, as the property states; sampled.", "DESIGN.md §4 C17"),
  "C20": ("exploration",
    "runtime model-based monitor (ordered-set model stepped in lock-step with the real Result over random operation sequences, all results compared after every step)",
    "Random sequences of the public Result operations run on the real type and on an ordered-set model; every result is compared with its model after every step, so loss, duplication, reordering, count drift and aliasing through operands are caught at the step they occur.",
-   "Only the exported API; messages compared by text; sampled sequences.", "DESIGN.md §4 C20"),
+   "Only the exported API on the results; pooled operands come from the verif hook VerifBorrowResult and are given back by the merge (ownership automaton and poison on); messages compared by text; sampled sequences.", "DESIGN.md §4 C20"),
  "C02": ("exploration",
    "runtime reference-model monitor (raw document judged against the official Swagger 2.0 JSON schema by the independent draft-4 model, next to the real SpecValidator)",
    "Loadable mutated specifications are validated by the real SpecValidator in both modes and through Spec(); independently the raw JSON is judged against the vendored Swagger 2.0 schema by the draft-4 model; schema-invalid but accepted is a violation unless a recorded finding's exact emulation makes the model accept too.",
